@@ -33,7 +33,7 @@ def make_arrays(n_app=200, n_ret=100, E=3000.0, cp=2e-6, bl=0.0, noise=0.0,
 
 
 def make_indentation(cols=None, k=0.05, path="synthetic.jpk-force", enum=0,
-                     with_tip=False, **kw):
+                     with_tip=False, metadata=None, **kw):
     from nanite import Indentation
     if cols is None:
         cols = make_arrays(k=k, **kw)
@@ -43,6 +43,10 @@ def make_indentation(cols=None, k=0.05, path="synthetic.jpk-force", enum=0,
     md = {"path": pathlib.Path(path), "enum": enum, "spring constant": k,
           "point count": int(cols["force"].size),
           "imaging mode": "force-distance"}
+    if metadata:
+        md.update(metadata)
+    if k is None:
+        md.pop("spring constant")
     return Indentation(data=cols, metadata=md)
 
 
